@@ -50,6 +50,10 @@ pub broadcast proof fn axiom_nanos_nonneg(d: std::time::Duration) ensures #[trig
 pub assume_specification<T> [std::mem::drop] (_0: T);
 pub assume_specification<T: Default> [core::mem::take] (dest: &mut T) -> (r: T) ensures r == *old(dest);
 
+// R28: the text written by `write!` is opaque; formatting into a Formatter can fail (fmt::Error) and has no other effect visible here
+#[verifier::external_body]
+pub fn fmt_write(f: &mut std::fmt::Formatter) -> (r: std::fmt::Result) { unimplemented!() }
+
 // module tree of the rodbus crate (contents are fragments; every item text comes from /repo)
 pub mod error {
 use vstd::prelude::*;
